@@ -98,7 +98,10 @@ class Deck:
                 opts.append(f'U={c.universe}')
             if c.lat:
                 opts.append(f'LAT={c.lat}')
-            if c.fill_array is not None:
+            if c.fill_array is not None and getattr(c, 'homogeneous', False):
+                opts.append(_tr_opt('FILL', c.homogeneous, c.filltr) if c.filltr is not None
+                            else f'FILL={c.homogeneous}')
+            elif c.fill_array is not None:
                 ranges, univs = c.fill_array
                 opts.append('FILL=' + ' '.join(f'{lo}:{hi}' for lo, hi in ranges) + ' ' + ' '.join(str(u) for u in univs))
             elif c.fill is not None:
@@ -222,6 +225,9 @@ class Deck:
         if depth > 6:
             raise ValueError('universe nesting too deep')
         found = []
+        lat = [c for c in self.cells.values() if c.universe == universe and c.lat]
+        if lat:
+            return self.locate_lattice(lat[0], pt, depth)
         for c in self.cells.values():
             if c.universe != universe:
                 continue
@@ -248,8 +254,57 @@ class Deck:
             return sub
         return [c.id] + sub
 
+    def lattice_base(self, c):
+        """(origin coordinates, base vectors) of a LAT=1 cell bounded by pairs of axis planes, from the listing order:
+        a_k carries the second-listed plane of pair k onto the first-listed one."""
+        refs = []
+        def flat(e):
+            if e[0] == 's':
+                refs.append(e[1])
+            else:
+                for a in e[1:]:
+                    flat(a)
+        flat(c.expr)
+        vecs, origins = [], []
+        for k in range(0, len(refs), 2):
+            s1, s2 = self.surfs[abs(refs[k])], self.surfs[abs(refs[k + 1])]
+            ax = 'xyz'.index(s1.mn[1])
+            a = [0.0, 0.0, 0.0]
+            a[ax] = s1.params[0] - s2.params[0]
+            vecs.append((ax, a, s2.params[0]))
+        return vecs
+
     def locate_lattice(self, c, q, depth):
-        raise NotImplementedError
+        vecs = self.lattice_base(c)
+        ranges, univs = c.fill_array
+        idx = []
+        shift = [0.0, 0.0, 0.0]
+        for (ax, a, c2) in vecs:
+            t = (q[ax] - c2) / a[ax]
+            if abs(t - round(t)) < 1e-6:
+                return None
+            i = math.floor(t)
+            idx.append(i)
+            shift[ax] += i * a[ax]
+        full = list(idx) + [0] * (len(ranges) - len(idx))
+        pos, mult = 0, 1
+        for d_, (lo, hi) in enumerate(ranges):
+            if not lo <= full[d_] <= hi:
+                return ['outside-lattice']
+            pos += (full[d_] - lo) * mult
+            mult *= hi - lo + 1
+        u = univs[pos]
+        if u == 0:
+            return ['lattice-universe-0']
+        if u == c.universe:
+            return [c.id]
+        q2 = tuple(q[i] - shift[i] for i in range(3))
+        if c.filltr is not None:
+            q2 = self.to_aux(c.filltr, q2)
+        sub = self.locate(q2, u, depth + 1)
+        if sub is None or isinstance(sub, tuple):
+            return sub
+        return [c.id] + sub
 
 
 def _tr_opt(kw, univ, spec):
@@ -447,4 +502,72 @@ def fill_deck(seed):
         d.cells[rng.choice(top)].imp = 0
     # re-order: MCNP allows any order; put level 0 first
     d.cells = dict(sorted(d.cells.items()))
+    return d
+
+
+# ------------------------------------------------------------------ rectangular lattices
+
+def lattice_deck(seed):
+    """LAT=1 cell (1, 2 or 3 pairs of axis planes, any listing order and sense), FILL array or FILL=n with --lattice,
+    universes 0 / own / two filler universes, container sphere."""
+    rng = random.Random(f'lat{seed}')
+    d = Deck(f'lattice deck seed {seed}')
+    ndim = rng.choice([1, 2, 2, 3])
+    sid = 0
+    pairs = []
+    pitch = []
+    for k in range(ndim):
+        lo = rng.choice([-0.5, 0.0, -0.25])
+        w = rng.choice([0.5, 0.75, 1.0])
+        sid += 1
+        d.add_surf(Surf(sid, 'p' + 'xyz'[k], [lo]))
+        sid += 1
+        d.add_surf(Surf(sid, 'p' + 'xyz'[k], [lo + w]))
+        pairs.append((sid - 1, sid, lo, w))
+    # filler universes: a small sphere (centred in the base element) and its outside
+    cx = [p[2] + p[3] / 2 for p in pairs] + [0.0] * (3 - ndim)
+    d.add_surf(Surf(20, 's', cx + [0.2]))
+    d.add_surf(Surf(21, 's', cx + [0.15]))
+    d.add_surf(Surf(30, 'so', [rng.choice([1.6, 2.2])]))
+    for u, s_, (m1, m2) in ((2, 20, (1, 2)), (3, 21, (3, 4))):
+        d.add_cell(Cell(10 * u, m1, rng.choice(RHOS), ('s', -s_), universe=u))
+        d.add_cell(Cell(10 * u + 1, m2, rng.choice(RHOS), ('s', s_), universe=u))
+        d.materials[m1] = MATS[m1]
+        d.materials[m2] = MATS[m2]
+    d.cells[30].rho = '-7.8'
+    # lattice cell
+    refs = []
+    for (a, b, lo, w) in pairs:
+        lo_ref, hi_ref = ('s', a), ('s', -b)          # x > lo , x < lo + w
+        pr = [lo_ref, hi_ref]
+        rng.shuffle(pr)
+        refs += pr
+    e = refs[0]
+    for r in refs[1:]:
+        e = ('*', e, r)
+    ranges = []
+    for k in range(ndim):
+        lo = rng.choice([-2, -1, 0])
+        ranges.append((lo, lo + rng.choice([1, 1, 2])))
+    while len(ranges) < 3 and rng.random() < 0.5:
+        ranges.append((0, 0))
+    n = 1
+    for lo, hi in ranges:
+        n *= hi - lo + 1
+    univs = [rng.choice([2, 3, 2, 3, 0, 9]) for _ in range(n)]
+    L = Cell(50, 4, '-1.0', e, universe=9, lat=1)
+    d.materials[4] = MATS[4]
+    L.fill_array = (ranges, univs)
+    L.homogeneous = False
+    if rng.random() < 0.35:
+        u = rng.choice([2, 3])
+        L.fill_array = (ranges, [u] * n)
+        L.homogeneous = u
+    if L.homogeneous and rng.random() < 0.6:
+        L.filltr = rng.choice([INLINE_TRS[1], INLINE_TRS[4], INLINE_TRS[2], ('inline', False, [0.1, 0.0, 0.0])])
+    d.add_cell(L)
+    d.add_cell(Cell(1, 0, None, ('s', -30), fill=9))
+    d.add_cell(Cell(2, 0, None, ('s', 30), imp=rng.choice([0, 1])))
+    d.cells = dict(sorted(d.cells.items()))
+    d.lattice_opts = ['50,' + ','.join(f'{lo}:{hi}' for lo, hi in ranges)] if L.homogeneous else []
     return d
